@@ -58,6 +58,10 @@ var rtVersions = []string{
 	"hidden counter h by k\ncounter c by k\ncounter lseen\n/^(\\w+)$/ {\n  h[$1]++\n  c[$1]++\n}\nlseen++\n",
 	// 11: same name `c`, other keys (label-dimension clash across programs)
 	"counter c by other\ncounter lseen\n/^(\\w+)$/ {\n  c[$1]++\n}\nlseen++\n",
+	// 12: two gauges c, d (two kind conflicts at once against version 13)
+	"gauge c by k\ngauge d by k\ncounter lseen\n/^(\\w+)$/ {\n  c[$1]++\n  d[$1]++\n}\nlseen++\n",
+	// 13: two counters c, d
+	"counter c by k\ncounter d by k\ncounter lseen\n/^(\\w+)$/ {\n  c[$1]++\n  d[$1]++\n}\nlseen++\n",
 }
 
 type rtDecl struct {
